@@ -438,7 +438,7 @@ class VisitorI(Interface):
 
 for _method, _shape, _cls in _RANGE_FORMS:
     M.contract('%s:%s.accept' % (P_RE, _cls.__name__),
-               params=dict(self=_shape, visitor=Iface(VisitorI)), ghosts=dict(method=Const(_method)),
+               params=dict(self=_shape, visitor=Iface(VisitorI)), ghosts=dict(method=Const(_method)), inline=True,
                ensures={'accept-dispatches-to-the-method-of-the-form': lambda self, visitor, method, trace, result:
                len(trace) == 2 and trace[0][0] == method and trace[0][1] is visitor and len(trace[0][2]) == 1
                and trace[0][2][0] is self and trace[1][2] is result}, raises_only=())
@@ -874,7 +874,7 @@ def src_ok(source):
 
 for _method, _shape, _cls in _RANGE_FORMS:
     M.contract('%s:_SingleRangeSourceConstructor.%s' % (P_TR, _method),
-               params=dict(self=SOURCE_CONSTRUCTOR, x=_shape), ghosts=dict(n=Int, N=Nat),
+               params=dict(self=SOURCE_CONSTRUCTOR, x=_shape), ghosts=dict(n=Int, N=Nat), inline=True,
                ensures={
                    # n: an arbitrary line number, N: the number of lines of an arbitrary text
                    'selects-exactly-the-lines-of-the-range': lambda x, n, N, result:
@@ -1011,3 +1011,201 @@ M.loop(_Q_SEG, 5,
        invariant=lambda _i, _start, segments, lines, start_m1, yielded, n:
        progress(yielded, lines.xs, segments, _i, n) and (_start == len(lines.xs) or start_m1 <= _i),
        modifies=dict(line='local', yielded='len'))
+
+# ------------------------------------------------------------------------------ the string transformers
+# (1) a single range
+
+
+class LinesTransformerI(Interface):
+    """any lines transformer: records the call"""
+    target_class = T._LinesTransformer
+    methods = {'transform': Method(returns=Any_, event='transform')}
+
+
+M.contract(P_SRC + ':_ContentsOfLinesTransformer._transform_lines',
+           params=dict(self=Inst(T._ContentsOfLinesTransformer, _transformer=Iface(LinesTransformerI), _source=Any_,
+                                 _file_name=Any_, _as_file_path=Any_), lines=Any_),
+           ensures={'the-lines-of-the-contents-are-what-the-lines-transformer-makes-of-the-lines-of-the-source':
+                    lambda self, lines, trace, result:
+                    len(trace) == 2 and trace[0][0] == 'transform' and trace[0][1] is self._transformer
+                    and len(trace[0][2]) == 1 and trace[0][2][0] is lines and trace[1][2] is result},
+           raises_only=())
+
+M.contract(P_TR + ':SingleLineRangeTransformer.transform',
+           params=dict(self=Inst(transformers.SingleLineRangeTransformer, _name=Any_, _range=ANY_REAL_RANGE,
+                                 _get_structure=Any_, _mem_buff_size=Any_), model=Any_),
+           ghosts=dict(n=Int, N=Nat),
+           ensures={
+               # THE property for one range: n an arbitrary line number, N the number of lines of an arbitrary text
+               'selects-exactly-the-lines-of-the-range': lambda self, n, N, result:
+               iff(src_mem(result, N, n), S(self._range, N, n)),
+               'constructed-with-the-parameters-it-requires': lambda result: src_ok(result),
+               'transforms-the-given-source': lambda model, result: transformed_source_of(result) is model,
+           }, raises_only=())
+
+# (2) several ranges, none with a negative number: merged when the transformer is applied
+
+
+def lt_mem(t, N, n):
+    """line n of a text of N lines is in the output of the lines transformer t (one of the three of
+    _transform_method_for / the segments transformer)"""
+    if isinstance(t, T._EmptyLinesTransformer):
+        return False
+    if isinstance(t, T._EverythingLinesTransformer):
+        return 1 <= n and n <= N
+    return 1 <= n and n <= N and selected(t._segments, n)
+
+
+def lt_ok(t):
+    """the segments transformer gets its segments in normal form"""
+    return (not isinstance(t, T._TransformMethodOfSegments)) \
+        or parts_nf(t._segments.head, t._segments.body, t._segments.tail)
+
+
+def multi_mem(result, model, N, n):
+    """line n of a text of N lines is in the output of the string source `result` made from `model`"""
+    if result is model:
+        return 1 <= n and n <= N
+    t = lines_transformer_of(result)
+    return False if t is None else lt_mem(t, N, n)
+
+
+def multi_ok(result, model):
+    if result is model:
+        return True
+    t = lines_transformer_of(result)
+    return transformed_source_of(result) is model and (True if t is None else lt_ok(t))
+
+
+MULTI = Inst(transformers.MultipleLineRangesTransformer, _name=Any_, _get_structure=Any_, _ranges=RANGES,
+             _mem_buff_size=Any_)
+
+M.contract(P_TR + ':MultipleLineRangesTransformer._model_for_non_negatives',
+           params=dict(self=MULTI, model=Any_, non_neg_values=PARTITIONING_RO), ghosts=dict(n=Int, N=Nat),
+           requires=lambda non_neg_values: wf_part(non_neg_values),
+           ensures={
+               'selects-exactly-the-lines-of-the-partitioning': lambda model, non_neg_values, n, N, result:
+               implies(1 <= n and n <= N, iff(multi_mem(result, model, N, n), part_mem(non_neg_values, n))),
+               'constructed-with-the-parameters-it-requires': lambda model, result: multi_ok(result, model),
+           }, raises_only=(), inline=True)
+
+# (3) several ranges, some with a negative number: the number of lines N of the text is needed first; the source is
+# read once to count them, the negative numbers are translated, everything is merged.
+from pyvc.models import SIter  # noqa: E402
+from exactly_lib.type_val_prims.string_source.string_source import StringSource  # noqa: E402
+from exactly_lib.type_val_prims.string_source.contents import StringSourceContents  # noqa: E402
+from exactly_lib.impls.types.string_source.contents.delegated_with_init import \
+    DelegatedStringSourceContentsWithInit  # noqa: E402
+
+
+class LinesCtxI(Interface):
+    """the context manager `contents.as_lines`: entering it gives a fresh iterator over THE lines of the text.
+    ASSUMED (environment; it is property C14): a text has one value however and how often it is read, and
+    freezing the source does not change it."""
+    attrs = {'lines': ListOf(Str)}
+    methods = {
+        '__enter__': Method(model=lambda interp, self, args, kwargs: SIter(interp.getattr(self, 'lines'), 0)),
+        '__exit__': Method(returns=Const(False)),
+    }
+
+
+class ContentsI(Interface):
+    target_class = StringSourceContents
+    attrs = {'as_lines': Iface(LinesCtxI)}
+
+
+class SourceI(Interface):
+    target_class = StringSource
+    methods = {'contents': Method(returns=Iface(ContentsI), pure=True), 'freeze': Method()}
+
+
+def text_lines(source):
+    """the lines of the text of a string source (ghost)"""
+    return source.contents().as_lines.lines
+
+
+RESOLVER = Inst(T._HandlerResolverForMultipleRangesWNegativeValues, _source=Iface(SourceI),
+                _partial_partitioning=PARTITIONING, _negatives=RANGES)
+_R_MODIFIES = ('self._partial_partitioning.head_to', 'self._partial_partitioning.segments',
+               'self._partial_partitioning.tail_from')
+_Q_RES = P_SRC + ':_HandlerResolverForMultipleRangesWNegativeValues.'
+
+M.contract(_Q_RES + '_num_lines_of_source_model', params=dict(self=RESOLVER), returns=Nat,
+           ensures={'the-number-of-lines-of-the-text': lambda self, result: result == len(text_lines(self._source))},
+           raises_only=())
+M.loop(_Q_RES + '_num_lines_of_source_model', 0, invariant=lambda _i, n: n == _i, modifies={'n': Int, '_': 'local'})
+
+M.contract(_Q_RES + '_ranges_corresponding_to', params=dict(self=RESOLVER, num_lines=Nat), ghosts=dict(n=Int),
+           returns=MERGED, modifies=_R_MODIFIES,
+           # the ghost N of the contracts used inside (partition) is the given number of lines
+           setup=lambda interp, args, ghosts: {'N': args['num_lines']},
+           requires=lambda self: wf_part(self._partial_partitioning),
+           old=lambda self: snapshot(self._partial_partitioning),
+           ensures={
+               'denotes-exactly-the-lines-of-the-stored-and-the-negative-ranges': lambda self, num_lines, old, n, result:
+               implies(1 <= n and n <= num_lines,
+                       iff(merged_mem(result, n),
+                           part_mem3(old[0], old[1], old[2], n)
+                           or any_S(self._negatives, len(self._negatives), num_lines, n))),
+               'normal-form': lambda result: merged_nf(result),
+           }, raises_only=())
+
+M.contract(_Q_RES + '_transform_method_for', params=dict(merged_ranges=MERGED), ghosts=dict(n=Int, N=Nat),
+           requires=lambda merged_ranges: merged_nf(merged_ranges), inline=True,
+           ensures={
+               'selects-exactly-the-denoted-lines': lambda merged_ranges, n, N, result:
+               implies(1 <= n and n <= N, iff(lt_mem(result, N, n), merged_mem(merged_ranges, n))),
+               'segments-in-normal-form': lambda result: lt_ok(result),
+           }, raises_only=())
+
+M.contract(_Q_RES + 'resolve', params=dict(self=RESOLVER), ghosts=dict(n=Int),
+           requires=lambda self: wf_part(self._partial_partitioning),
+           old=lambda self: snapshot(self._partial_partitioning),
+           ensures={
+               # N = the number of lines of the text of the source
+               'selects-exactly-the-lines-of-the-stored-and-the-negative-ranges': lambda self, old, n, result:
+               implies(1 <= n and n <= len(text_lines(self._source)),
+                       iff(lt_mem(result._transformer, len(text_lines(self._source)), n),
+                           part_mem3(old[0], old[1], old[2], n)
+                           or any_S(self._negatives, len(self._negatives), len(text_lines(self._source)), n))),
+               'a-contents-of-the-lines-of-the-source': lambda self, result:
+               isinstance(result, T._ContentsOfLinesTransformer) and result._source is self._source
+               and lt_ok(result._transformer),
+           }, raises_only=())
+
+
+def resolver_of(result, model):
+    """the resolver behind a string source whose contents are resolved when first read; None for other sources"""
+    if result is model:
+        return None
+    c = result.contents()
+    if isinstance(c, DelegatedStringSourceContentsWithInit):
+        return c._initializer.__self__
+    return None
+
+
+def transform_exact(self, model, result, N, n):
+    """line n of a text of N lines is in the output  <=>  n is denoted by one of the ranges"""
+    r = resolver_of(result, model)
+    if r is None:
+        return iff(multi_mem(result, model, N, n), any_S(self._ranges, len(self._ranges), N, n))
+    # contents resolved later by r.resolve (contract above): what it starts from denotes the ranges
+    return iff(part_mem(r._partial_partitioning, n) or any_S(r._negatives, len(r._negatives), N, n),
+               any_S(self._ranges, len(self._ranges), N, n))
+
+
+def transform_ok(model, result):
+    r = resolver_of(result, model)
+    if r is None:
+        return multi_ok(result, model)
+    return r._source is model and wf_part(r._partial_partitioning)
+
+
+M.contract(P_TR + ':MultipleLineRangesTransformer.transform', params=dict(self=MULTI, model=Any_),
+           ghosts=dict(n=Int, N=Nat),
+           ensures={
+               # THE property for several ranges: n an arbitrary line number, N the number of lines of an arbitrary text
+               'selects-exactly-the-lines-of-the-ranges': lambda self, model, n, N, result:
+               implies(1 <= n and n <= N, transform_exact(self, model, result, N, n)),
+               'constructed-with-the-parameters-it-requires': lambda model, result: transform_ok(model, result),
+           }, raises_only=())
